@@ -99,6 +99,7 @@ type op struct {
 	drop   bool
 	host   string // "" = host1
 	source string // "" = src
+	pad    int    // extra payload bytes (records over 1024 bytes live in pooled backing buffers)
 }
 
 type params struct {
@@ -112,6 +113,7 @@ type params struct {
 	metricKeys string // YAML list, default [host]
 	reload     string // "" = no reload; else the new configuration variant written before SIGHUP (Reloader level, C17)
 	oldDown    bool   // the upstream of the pipelines created before the reload is down (everything stays queued)
+	ackWindow  int    // ForwarderMaxPendingChunksForAck (default 2)
 	flushAlt   bool   // a Flush() after each line is an explorer choice
 	advances   int
 	delayB     bool
@@ -326,6 +328,9 @@ func makeRun(p params) explore.RunFunc {
 		defs.BufferMaxNumChunksInMemory = p.memCap
 		defs.BufferMaxNumChunksInQueue = 50
 		defs.ForwarderMaxPendingChunksForAck = 2
+		if p.ackWindow > 0 {
+			defs.ForwarderMaxPendingChunksForAck = p.ackWindow
+		}
 		fluentdforward.VerifSetChunkLimits(p.chunkRecs, 7*1024*1024)
 		w := &world{p: p, jsonOf: map[string]string{}}
 		w.root = hutil.ScratchRoot("agentmc")
@@ -434,6 +439,9 @@ func drive(w *world) explore.Verdict {
 							}
 							stamp := fmt.Sprintf("c%dr%d", ci, seqn)
 							line := syslogLine(host, o.app, source, stamp)
+							if o.pad > 0 {
+								line += " " + strings.Repeat("p", o.pad)
+							}
 							lr := &lineRec{conn: ci, seq: seqn, app: o.app, host: host, source: source, stamp: stamp, drop: o.drop, bytes: len(line)}
 							w.lines = append(w.lines, lr)
 							vsched.Note("conn%d line %s app=%s drop=%v", ci, stamp, o.app, o.drop)
@@ -445,6 +453,13 @@ func drive(w *world) explore.Verdict {
 							}
 						case "flush":
 							sink.Flush()
+						case "settle":
+							// the client pauses: everything received so far is flushed, processed and released
+							// (the per-key buffers of the orchestrator sink are flushed by a tick only after the flush interval)
+							sink.Flush()
+							vsched.Sleep(defs.IntermediateFlushInterval+100*time.Millisecond, "conn.pause")
+							sink.Flush()
+							vsched.Idle()
 						}
 					}
 					sink.Flush()
@@ -959,6 +974,9 @@ func scenarios(prop string) []*explore.Scenario {
 	// three generations
 	c := params{name: "1conn-3rec/3gens", conns: [][]op{{L("appA"), L("appA"), L("appB")}}, gens: 3, chunkRecs: 1, memCap: 2, opt: full, flushAlt: false, advances: 1}
 	add(c, 1, 2)
+	// one key set, four chunks, acknowledger queue of one: the sender can be blocked handing a transmitted chunk over
+	w1 := params{name: "1conn-4rec-1key/ackwindow1/restart", conns: [][]op{{L("appA"), L("appA"), L("appA"), L("appA")}}, gens: 2, chunkRecs: 1, memCap: 4, ackWindow: 1, opt: full, flushAlt: false, advances: 1}
+	add(w1, 1, 2)
 	if prop == "C17" {
 		out = nil
 		for _, v := range []string{"identical", "transform-changed", "yaml-error", "unknown-field", "keys-changed", "maxfields-changed"} {
@@ -976,6 +994,11 @@ func scenarios(prop string) []*explore.Scenario {
 		M := func(host, source string) op { return op{kind: "line", app: "appA", host: host, source: source} }
 		e := params{name: "metric-key-tuples", conns: [][]op{{M("ab", "c"), M("a", "bc"), M("ab", "c")}}, gens: 2, chunkRecs: 1, memCap: 2, opt: full, metricKeys: "[host, source]", advances: 1}
 		add(e, 0, 1)
+		// pooled-size records (over 1024 bytes) of different hosts through one pipeline: label values must not alias the
+		// recycled input buffers
+		P := func(host string) op { return op{kind: "line", app: "appA", host: host, pad: 1100} }
+		f := params{name: "pooled-records-hosts", conns: [][]op{{P("alpha00"), {kind: "settle"}, P("bravo00"), {kind: "settle"}, P("alpha00"), P("charl00"), {kind: "settle"}, P("bravo00")}}, gens: 2, chunkRecs: 1, memCap: 2, opt: full, advances: 1}
+		add(f, 0, 1)
 	}
 	if prop == "C05" {
 		d := params{name: "2conn-2key-2rec/order", conns: [][]op{{L("appA"), L("appB"), L("appA"), L("appB")}, {L("appA"), L("appB"), L("appA"), L("appB")}}, gens: 2, chunkRecs: 2, memCap: 0, opt: full, flushAlt: true, advances: 1}
